@@ -297,7 +297,9 @@ func (a *Analysis) CheckC12(rep *Report) {
 	rep.Floor("tables", len(a.U.Tables), len(g.Tables))
 	rep.Floor("registrations", nreg, goldenFloor("registrations", 226))
 	rep.Floor("dynamic_parts", ndyn, 18)
-	rep.Sample(map[string]interface{}{"table": a.U.Tables[0].Name, "registrations": len(a.U.Tables[0].Regs), "first": a.U.Tables[0].Regs[0].Key + " -> " + a.U.Tables[0].Regs[0].Type})
+	if len(a.U.Tables) > 0 && len(a.U.Tables[0].Regs) > 0 {
+		rep.Sample(map[string]interface{}{"table": a.U.Tables[0].Name, "registrations": len(a.U.Tables[0].Regs), "first": a.U.Tables[0].Regs[0].Key + " -> " + a.U.Tables[0].Regs[0].Type})
+	}
 	var names []string
 	for _, t := range a.U.Tables {
 		names = append(names, fmt.Sprintf("%s:%d", t.Name, len(t.Regs)))
